@@ -126,6 +126,21 @@ func (b *Built) build(e *Expr, h *Hooks) parsley.Parser {
 		p = terminal.Op(e.S)
 	case OpMark:
 		p = UserMark()
+	case OpStr:
+		if b.leaves == nil {
+			b.leaves = map[int]parsley.Parser{}
+		}
+		if b.leaves[-1] == nil || !h.ShareLeaves {
+			b.leaves[-1] = terminal.String(nil, false)
+		}
+		p = b.leaves[-1]
+		if h.Budget != nil {
+			inner, budget := p, h.Budget
+			p = parser.Func(func(ctx *parsley.Context, lrc data.IntMap, pos parsley.Pos) (parsley.Node, data.IntSet, parsley.Error) {
+				budget(ctx)
+				return inner.Parse(ctx, lrc, pos)
+			})
+		}
 	case OpEmpty:
 		p = parser.Empty()
 	case OpEnd:
@@ -213,7 +228,7 @@ func (b *Built) build(e *Expr, h *Hooks) parsley.Parser {
 	if h.Around != nil {
 		p = h.Around(e, p)
 	}
-	if h.ShareExprs && h.NameOf == nil && e.Op != OpRune && e.Op != OpKw && e.Op != OpMark && e.Op != OpEmpty && e.Op != OpEnd && e.Op != OpNT {
+	if h.ShareExprs && h.NameOf == nil && e.Op != OpRune && e.Op != OpKw && e.Op != OpMark && e.Op != OpStr && e.Op != OpEmpty && e.Op != OpEnd && e.Op != OpNT {
 		if b.shared == nil {
 			b.shared = map[string]parsley.Parser{}
 		}
